@@ -618,6 +618,17 @@ def oracle(c, o):
 		if _wf_value(bytes.fromhex(o['raw'])) and o['wire'] != t:
 			return 'text value does not survive the wire (compose, parse, lookup differs from the str assigned): %r sent as %s read as %r' % (t, o['raw'], o['wire'])
 		return None
+	if k == 'key':
+		if _str_key_unencodable(c['key']):
+			return None
+		lk = key_lower(c['key'])
+		if lk is None and 'out' in o:
+			return 'invalid field name accepted on assignment instead of raising InvalidHeader (formatkey): key %s -> %r' % (json.dumps(c['key']), bytes.fromhex(o['out']))
+		if lk is not None and o.get('err'):
+			return 'valid field name refused by formatkey: %s' % json.dumps(c['key'])
+		if lk is not None and bytes.fromhex(o['out']).lower() != lk:
+			return 'formatkey changes a field name beyond its letter case: %s -> %r' % (json.dumps(c['key']), bytes.fromhex(o['out']))
+		return None
 	if k != 'ops':
 		return None
 	ref, txt = {}, {}
